@@ -518,9 +518,21 @@ impl P2p {
         // User can give us a bad header, so validate it.
         from.validate().map_err(|_| HeaderExError::InvalidRequest)?;
 
+        // Nothing is requested. An empty range can not be expressed as a `header-ex`
+        // request (`amount == 0` is an invalid request), so there is nothing to fetch.
+        if amount == 0 {
+            return Ok(Vec::new());
+        }
+
         let height = from.height() + 1;
 
-        let range = height..=height + amount - 1;
+        // Reject amounts that do not fit in the height space instead of overflowing.
+        let end = height
+            .checked_add(amount)
+            .ok_or(HeaderExError::InvalidRequest)?
+            - 1;
+
+        let range = height..=end;
 
         let mut session = HeaderSession::new(range, self.cmd_tx.clone());
         let headers = session.run().await?;
